@@ -144,15 +144,19 @@ class Node:
 
 
 class _Ctx:
-    __slots__ = ("brk", "cont", "ret", "exc", "in_try", "lexical")
+    __slots__ = ("brk", "cont", "ret", "exc", "in_try", "lexical", "retval", "depth", "owner")
 
-    def __init__(self, brk, cont, ret, exc, in_try, lexical=()):
+    def __init__(self, brk, cont, ret, exc, in_try, lexical=(), retval=None, depth=0, owner=None):
         self.brk, self.cont, self.ret, self.exc = brk, cont, ret, exc
         self.in_try = in_try
         self.lexical = lexical
+        self.retval = retval      # inside an inlined callee: value expr -> continuation node
+        self.depth = depth
+        self.owner = owner        # FuncInfo whose body is being built (callee when inlined)
 
     def but(self, **kw) -> "_Ctx":
-        c = _Ctx(self.brk, self.cont, self.ret, self.exc, self.in_try, self.lexical)
+        c = _Ctx(self.brk, self.cont, self.ret, self.exc, self.in_try, self.lexical,
+                 self.retval, self.depth, self.owner)
         for k, v in kw.items():
             setattr(c, k, v)
         return c
@@ -221,8 +225,10 @@ def may_raise(node: ast.AST) -> bool:
 
 class CFG:
     def __init__(self, func: FuncInfo | ast.FunctionDef, relpath: str = "",
-                 exc_everywhere: bool = False, effects=None):
+                 exc_everywhere: bool = False, effects=None, inline: bool = True):
         self.effects = effects
+        self.inline = inline
+        self.inlined: list[str] = []
         if isinstance(func, FuncInfo):
             self.func = func
             fn = func.node
@@ -240,7 +246,7 @@ class CFG:
         self.exit = Node(self, "exit", None)          # normal return / fall off
         self.raise_exit = Node(self, "raise", None)   # exception escapes
         ctx = _Ctx(None, None, self.exit, _RaiseExit(self.raise_exit),
-                   exc_everywhere or effects is not None)
+                   exc_everywhere or effects is not None, owner=self.func)
         first = self._block(fn.body, self.exit, ctx)
         self.entry.link("next", first)
 
@@ -306,6 +312,8 @@ class CFG:
         if isinstance(st, ast.Match):
             return self._match(st, nxt, ctx)
         if isinstance(st, ast.Return):
+            if ctx.retval is not None:
+                return ctx.retval(st.value, ctx)
             n = self._mk("stmt", st, ctx)
             n.link("return", ctx.ret)
             if st.value is not None:
@@ -335,10 +343,107 @@ class CFG:
             n = self._mk("stmt", st, ctx)
             n.link("continue", ctx.cont)
             return n
+        if isinstance(st, ast.Expr) and isinstance(st.value, ast.Call):
+            tgt = self._inline_target(st.value, ctx)
+            if tgt is not None:
+                return self._inline(tgt, st.value, ctx, lambda v, c: nxt, nxt)
+        if isinstance(st, ast.Assign) and isinstance(st.value, ast.Call) and len(st.targets) == 1:
+            tgt = self._inline_target(st.value, ctx)
+            if tgt is not None:
+                target = st.targets[0]
+
+                def assign(v, c, target=target, st=st):
+                    a = ast.Assign(targets=[target], value=v if v is not None else ast.Constant(value=None))
+                    ast.copy_location(a, st)
+                    ast.fix_missing_locations(a)
+                    n_ = self._mk("stmt", a, c)
+                    n_.link("next", nxt)
+                    return n_
+                return self._inline(tgt, st.value, ctx, assign, nxt)
         n = self._mk("stmt", st, ctx)
         n.link("next", nxt)
         if not isinstance(st, (ast.FunctionDef, ast.AsyncFunctionDef, ast.ClassDef)):
             self._exc_edge(n, st, ctx)
+        return n
+
+    # -- inlining of helpers unknown to the rules ------------------------------
+    def _inline_target(self, call: ast.Call, ctx: _Ctx):
+        if not self.inline or self.func is None or self.func.cls is None or ctx.depth >= 2:
+            return None
+        fn = call.func
+        if not (isinstance(fn, ast.Attribute) and isinstance(fn.value, ast.Name) and fn.value.id == "self"):
+            return None
+        from .known_methods import KNOWN_METHODS
+        name = fn.attr
+        if name in KNOWN_METHODS or name.startswith("__"):
+            return None
+        model = self.func.module.model
+        tgt = model.find_method(self.func.cls, name)
+        if tgt is None or tgt.is_property or tgt.node.decorator_list:
+            return None
+        owner = ctx.owner or self.func
+        if tgt is owner or tgt is self.func:
+            return None
+        a = tgt.node.args
+        if a.vararg or a.kwarg or a.kwonlyargs or a.posonlyargs:
+            return None
+        params = [x.arg for x in a.args][1:]
+        if len(call.args) > len(params) or any(k.arg is None or k.arg not in params for k in call.keywords):
+            return None
+        for x in ast.walk(tgt.node):
+            if isinstance(x, (ast.Yield, ast.YieldFrom, ast.Global, ast.Nonlocal)):
+                return None
+        return tgt
+
+    def _inline(self, tgt: FuncInfo, call: ast.Call, ctx: _Ctx, retval, nxt: Node) -> Node:
+        import copy
+        a = tgt.node.args
+        params = [x.arg for x in a.args][1:]
+        binding: dict[str, ast.expr] = {}
+        for p_, v in zip(params, call.args):
+            binding[p_] = v
+        for k in call.keywords:
+            binding[k.arg] = k.value
+        defaults = dict(zip(params[len(params) - len(a.defaults):], a.defaults))
+        for p_ in params:
+            if p_ not in binding:
+                if p_ not in defaults:
+                    return self._plain_call_node(call, ctx, nxt)
+                binding[p_] = defaults[p_]
+        # parameters that are re-assigned in the callee cannot be substituted textually
+        for x in ast.walk(tgt.node):
+            if isinstance(x, ast.Name) and isinstance(x.ctx, ast.Store) and x.id in binding \
+                    and not (isinstance(binding[x.id], ast.Name) and binding[x.id].id == x.id):
+                return self._plain_call_node(call, ctx, nxt)
+        caller_names = {x.id for x in ast.walk(self.fn) if isinstance(x, ast.Name)}
+        callee_locals = {x.id for x in ast.walk(tgt.node)
+                         if isinstance(x, ast.Name) and isinstance(x.ctx, ast.Store)} - set(params)
+        ren = {x: f"{x}__{tgt.name.strip('_')}" for x in callee_locals if x in caller_names}
+
+        class Sub(ast.NodeTransformer):
+            def visit_Name(s_, node):
+                if node.id in binding and not isinstance(node.ctx, ast.Store):
+                    return copy.deepcopy(binding[node.id])
+                if node.id in ren:
+                    return ast.copy_location(ast.Name(id=ren[node.id], ctx=node.ctx), node)
+                return node
+        body = [Sub().visit(copy.deepcopy(st)) for st in tgt.node.body]
+        for st in body:
+            ast.fix_missing_locations(st)
+        self.inlined.append(tgt.qualname)
+        inner = ctx.but(brk=None, cont=None, retval=retval, depth=ctx.depth + 1, owner=tgt)
+        return self._block(body, retval(None, inner) if not body else self._fall(retval, inner), inner)
+
+    def _fall(self, retval, inner):
+        """Continuation for falling off the end of an inlined body (returns None)."""
+        return retval(None, inner)
+
+    def _plain_call_node(self, call, ctx, nxt):
+        st = ast.Expr(value=call)
+        ast.copy_location(st, call)
+        n = self._mk("stmt", st, ctx)
+        n.link("next", nxt)
+        self._exc_edge(n, st, ctx)
         return n
 
     def _cond(self, test: ast.expr, t: Node, f: Node, ctx: _Ctx) -> Node:
@@ -357,6 +462,14 @@ class CFG:
             return cur
         if isinstance(test, ast.Constant):
             return t if test.value else f
+        if isinstance(test, ast.Call):
+            tgt = self._inline_target(test, ctx)
+            if tgt is not None:
+                def branch(v, c, t=t, f=f):
+                    if v is None:
+                        return f
+                    return self._cond(v, t, f, c.but(retval=None))
+                return self._inline(tgt, test, ctx, branch, f)
         n = self._mk("test", test, ctx)
         n.link("T", t)
         n.link("F", f)
@@ -635,8 +748,8 @@ class CFG:
 _cfg_cache: dict[tuple, CFG] = {}
 
 
-def cfg_of(func: FuncInfo, exc_everywhere: bool = False, effects=None) -> CFG:
-    key = (id(func.node), exc_everywhere, id(effects))
+def cfg_of(func: FuncInfo, exc_everywhere: bool = False, effects=None, inline: bool = True) -> CFG:
+    key = (id(func.node), exc_everywhere, id(effects), inline)
     if key not in _cfg_cache:
-        _cfg_cache[key] = CFG(func, exc_everywhere=exc_everywhere, effects=effects)
+        _cfg_cache[key] = CFG(func, exc_everywhere=exc_everywhere, effects=effects, inline=inline)
     return _cfg_cache[key]
